@@ -35,6 +35,17 @@ def baseline_abstraction():
     return _baseline
 
 
+_loops = None
+
+
+def baseline_loops():
+    global _loops
+    if _loops is None:
+        p = os.path.join(ROOT, "baseline", "loops.json")
+        _loops = json.load(open(p)) if os.path.exists(p) else {}
+    return _loops
+
+
 TIMEOUT_MS = {"quick": 10000, "thorough": 60000}
 
 
@@ -48,6 +59,7 @@ def se_unit(name, file, qualname, cls, setup, post, loop_specs=None, inline=(), 
         lib = lib_factory() if lib_factory else Lib()
         specs = loop_specs(None) if callable(loop_specs) else (loop_specs or {})
         E = Engine(repo, cls=cls, file=file, lib=lib, loop_specs=specs, inline=inline, max_paths=max_paths)
+        E.expected_headers = baseline_loops().get(name)
         st = State()
         res = {"unit": name, "target": f"{file}::{qualname}", "src_hash": repo.src_hash(fn), "kind": kind,
                "inlined": sorted(inline)}
@@ -98,6 +110,7 @@ def se_unit(name, file, qualname, cls, setup, post, loop_specs=None, inline=(), 
             res["vacuous"] = vac
         res["obligations"] = obs
         res["reached_loops"] = sorted(E.reached)
+        res["loop_headers"] = dict(getattr(E, "loop_headers", {}))
         return res
     return runner
 
